@@ -225,6 +225,64 @@ def deviation_closure(bases: Sequence[Graph], k: int) -> List[Graph]:
 
 
 # ---------------------------------------------------------------------------------------
+# LX: one loop with several entries and several exits x every continuation DAG
+#
+# The shapes C01/C02 call out by name - "loops with several entries/exits/latches, exits landing inside sibling branches,
+# branch arms that share blocks" - need 7 to 10 blocks, beyond E(n).  They are generated systematically instead:
+#   * a cycle of k blocks (k = 2, 3);
+#   * every non-empty set H of cycle blocks as loop headers, entered from a chain of pre-header branch blocks;
+#   * every set X (|X| >= 2) of cycle blocks as exiting blocks, the exit arc in either successor slot (uniformly);
+#   * every continuation DAG on the |X| exit targets plus a common end block: each exit target continues to one or two of
+#     the other exit targets / the end (acyclic) - exits that land in the middle of another exit's continuation.
+# All combinations, deduplicated by canonical form.
+
+def loop_exit_family(max_cycle: int = 3, max_exits: int = 3) -> List[Graph]:
+    out, seen = [], set()
+    for k in range(2, max_cycle + 1):
+        cyc = [f"c{i}" for i in range(k)]
+        for h in range(1, k + 1):
+            for H in itertools.combinations(range(k), h):
+                for e in range(2, min(k, max_exits) + 1):
+                    for X in itertools.combinations(range(k), e):
+                        posts = [f"p{i}" for i in range(e)]
+                        choices = []
+                        for i in range(e):
+                            others = [q for j, q in enumerate(posts) if j != i] + ["end"]
+                            opts = [(a,) for a in others] + [(a, b) for a in others for b in others if a != b]
+                            choices.append(opts)
+                        for dag in itertools.product(*choices):
+                            for exit_first in (False, True):
+                                g: Dict[str, Tuple[str, ...]] = {}
+                                # pre-header chain reaching every header
+                                hs = [cyc[i] for i in H]
+                                if len(hs) == 1:
+                                    g["entry"] = (hs[0],)
+                                else:
+                                    cur = "entry"
+                                    for j, hd in enumerate(hs[:-1]):
+                                        last = j == len(hs) - 2
+                                        nxt = hs[-1] if last else f"q{j}"
+                                        g[cur] = (hd, nxt)
+                                        cur = nxt
+                                for i in range(k):
+                                    nxt = cyc[(i + 1) % k]
+                                    if i in X:
+                                        p = posts[X.index(i)]
+                                        g[cyc[i]] = (p, nxt) if exit_first else (nxt, p)
+                                    else:
+                                        g[cyc[i]] = (nxt,)
+                                for i, succ in enumerate(dag):
+                                    g[posts[i]] = tuple(succ)
+                                g["end"] = ()
+                                c = canonical(g, "entry")
+                                if c is None or c in seen or not is_closed(c):
+                                    continue
+                                seen.add(c)
+                                out.append(c)
+    return out
+
+
+# ---------------------------------------------------------------------------------------
 # FIG: graphs from the repository's own tests (YAML literals), regression anchors
 
 def fig_graphs(repo: str) -> List[Tuple[str, Graph]]:
